@@ -6,6 +6,7 @@ CONSTANTS
   MaxLong = 4
   MaxShort = 4
   MaxSnap = 6
+  StableUpTo = 20
   MaxLen = 25
   Large = 99
 INVARIANT Emit
